@@ -30,7 +30,7 @@ var (
 // Corpus reads the test corpus from the repository under test.
 func Corpus() []CorpusCase {
 	corpusOnce.Do(func() {
-		f, err := os.Open("/repo/cli/test.yaml")
+		f, err := os.Open(RepoDir() + "/cli/test.yaml")
 		if err != nil {
 			return
 		}
